@@ -593,3 +593,127 @@ def truthiness_of(e):
     if isinstance(e, ast.UnaryOp) and isinstance(e.op, ast.Not) and isinstance(e.operand, ast.UnaryOp) and isinstance(e.operand.op, ast.Not):
         return e.operand.operand
     return None
+
+
+# ----------------------------------------------------------------------------------------------- partial evaluation
+class _SubstNames(ast.NodeTransformer):
+    def __init__(self, env):
+        self.env = env
+
+    def visit_Name(self, n):
+        if isinstance(n.ctx, ast.Load) and n.id in self.env:
+            import copy as _c
+            return ast.copy_location(_c.deepcopy(self.env[n.id]) if False else _clone(self.env[n.id]), n)
+        return n
+
+
+def _clone(node):
+    from .inline import clone
+    return clone(node)
+
+
+def simplify(e):
+    """constant folding of the boolean skeleton of e: comparisons/membership between constants, and/or/not, conditional
+    expressions with a constant test.  Returns a new expression (never mutates e)."""
+    e = _clone(e)
+
+    def const(x):
+        return isinstance(x, ast.Constant)
+
+    def fold(x):
+        if isinstance(x, ast.UnaryOp) and isinstance(x.op, ast.Not):
+            o = fold(x.operand)
+            if const(o):
+                return ast.Constant(value=not o.value)
+            x.operand = o
+            return x
+        if isinstance(x, ast.BoolOp):
+            vals = [fold(v) for v in x.values]
+            out = []
+            for v in vals:
+                if const(v):
+                    if isinstance(x.op, ast.And) and not v.value:
+                        return ast.Constant(value=False) if not out else ast.BoolOp(op=x.op, values=out + [v])
+                    if isinstance(x.op, ast.Or) and v.value:
+                        return ast.Constant(value=True) if not out else ast.BoolOp(op=x.op, values=out + [v])
+                    continue
+                out.append(v)
+            if not out:
+                return ast.Constant(value=isinstance(x.op, ast.And))
+            return out[0] if len(out) == 1 else ast.BoolOp(op=x.op, values=out)
+        if isinstance(x, ast.Compare) and len(x.ops) == 1:
+            a, b = fold(x.left), fold(x.comparators[0])
+            if const(a) and const(b) and isinstance(x.ops[0], (ast.Eq, ast.NotEq)):
+                r = a.value == b.value
+                return ast.Constant(value=r if isinstance(x.ops[0], ast.Eq) else not r)
+            if const(a) and isinstance(b, (ast.Tuple, ast.List, ast.Set)) and all(const(z) for z in b.elts) \
+                    and isinstance(x.ops[0], (ast.In, ast.NotIn)):
+                r = a.value in [z.value for z in b.elts]
+                return ast.Constant(value=r if isinstance(x.ops[0], ast.In) else not r)
+            x.left, x.comparators = a, [b]
+            return x
+        if isinstance(x, ast.IfExp):
+            t = fold(x.test)
+            if const(t):
+                return fold(x.body if t.value else x.orelse)
+            x.test, x.body, x.orelse = t, fold(x.body), fold(x.orelse)
+            return x
+        return x
+    return fold(e)
+
+
+def peval(view, env, max_paths=400):
+    """Partial evaluation of a (small, loop-light) function under known parameter values.
+    env: {name: python constant}.  Enumerates the CFG paths that are feasible when those names hold those constants (tests
+    that fold to a constant take one edge only), carrying straight-line assignments to locals along each path.
+    Returns [(kind, expr | None, in_handler)] with kind in {'return', 'raise', 'end'}; expr is the returned expression with
+    locals replaced by what they hold on that path and folded.  The result does not depend on how the function spells its
+    dispatch (if/elif chain, early returns, flags), only on what it computes."""
+    cfg = view.cfg
+    cenv = {k: ast.Constant(value=v) for k, v in env.items()}
+    out, seen_out = [], set()
+    stack = [(cfg.entry.id, dict(cenv), False, {})]
+    paths = 0
+    while stack and paths < max_paths:
+        nid, loc, handler, visits = stack.pop()
+        n = cfg.nodes[nid]
+        visits = dict(visits)
+        visits[nid] = visits.get(nid, 0) + 1
+        if visits[nid] > 2:
+            continue
+        if n.kind == "return":
+            v = n.ast.value
+            e = simplify(_SubstNames(loc).visit(_clone(v))) if v is not None else None
+            key = ("return", src(e) if e is not None else None, handler)
+            if key not in seen_out:
+                seen_out.add(key)
+                out.append(("return", e, handler))
+            paths += 1
+            continue
+        if n.kind == "raise":
+            key = ("raise", src(n.ast.exc) if getattr(n.ast, "exc", None) is not None else None, handler)
+            if key not in seen_out:
+                seen_out.add(key)
+                out.append(("raise", getattr(n.ast, "exc", None), handler))
+            paths += 1
+            continue
+        succ = cfg.succ.get(nid, [])
+        if n.kind == "test":
+            c = simplify(_SubstNames(loc).visit(_clone(n.ast.test)))
+            if isinstance(c, ast.Constant):
+                succ = [(b, lab) for b, lab in succ if lab == ("T" if c.value else "F") or lab not in ("T", "F")]
+        elif n.kind == "except":
+            handler = True
+        elif isinstance(n.ast, ast.Assign) and len(n.ast.targets) == 1 and isinstance(n.ast.targets[0], ast.Name) and n.kind not in ("for", "with"):
+            loc = dict(loc)
+            loc[n.ast.targets[0].id] = simplify(_SubstNames(loc).visit(_clone(n.ast.value)))
+        if not succ or nid == cfg.exit.id:
+            if ("end", None, handler) not in seen_out and nid == cfg.exit.id:
+                seen_out.add(("end", None, handler))
+                out.append(("end", None, handler))
+            paths += 1
+            continue
+        for b, lab in succ:
+            h2 = handler
+            stack.append((b, loc, h2, visits))
+    return out
